@@ -629,10 +629,18 @@ class NSGA3(Family):
     def step(self, st, gen):
         tb = self.toolbox
         pop = st["population"]
-        off = algorithms.varAnd(pop, tb, 1.0, 1.0)
-        n = self.evaluate_invalid(off)
-        st["halloffame"].update(off)
-        pop = tb.select(pop + off, 12)
+        if self.params.get("comma"):
+            # non-elitist use: the next population is selected among the offspring only, so the ideal / extreme
+            # points of earlier generations survive nowhere but in the selector's memory
+            off = algorithms.varAnd(pop + pop, tb, 1.0, 1.0)
+            n = self.evaluate_invalid(off)
+            st["halloffame"].update(off)
+            pop = tb.select(off, 12)
+        else:
+            off = algorithms.varAnd(pop, tb, 1.0, 1.0)
+            n = self.evaluate_invalid(off)
+            st["halloffame"].update(off)
+            pop = tb.select(pop + off, 12)
         st["population"] = pop
         self.log(st, pop, gen=gen, nevals=n)
 
@@ -810,6 +818,39 @@ class CMA1PL(CMA):
         parent = creator.IndividualC17(numpy.random.rand(5) * 2 - 1)
         parent.fitness.values = self.toolbox.evaluate(parent)
         return cma.StrategyOnePlusLambda(parent, sigma=5.0, lambda_=8)
+
+
+def ev_sphere_constrained(ind):
+    """None = infeasible (the active (1+lambda) strategy learns constraints from individuals left without fitness)"""
+    if ind[0] + ind[1] < -1.0:
+        return None
+    return benchmarks.sphere(ind)
+
+
+class CMAActive(CMA):
+    """cma.StrategyActiveOnePlusLambda: mixed-integer steps, active covariance update, constraint learning from the
+    individuals whose fitness stays invalid."""
+    def setup(self):
+        CMA.setup(self)
+        self.toolbox.register("evaluate", ev_sphere_constrained)
+
+    def make_strategy(self):
+        parent = creator.IndividualC17([1.5, 2.0, 3.0, 1.0])
+        parent.fitness.values = benchmarks.sphere(parent)
+        return cma.StrategyActiveOnePlusLambda(parent, sigma=1.0, steps=[0.0, 0.0, 1.0, 0.0], lambda_=6)
+
+    def step(self, st, gen):
+        tb = self.toolbox
+        pop = tb.generate()
+        fits = tb.map(tb.evaluate, pop)
+        for ind, fit in zip(pop, fits):
+            if fit is not None:
+                ind.fitness.values = fit
+        feasible = [ind for ind in pop if ind.fitness.valid]
+        st["halloffame"].update(feasible)
+        tb.update(pop)
+        st["population"] = pop
+        self.log(st, feasible or [st["strategy"].parent], gen=gen, nevals=len(pop))
 
 
 class MOCMA(Family):
@@ -1276,7 +1317,7 @@ def model_tokens(st, cursor):
 
 
 FAMILIES = {"ga": GAList, "ga_array": GAArray, "ga_numpy": GANumpy, "nsga2": NSGA2, "spea2": SPEA2, "nsga3": NSGA3,
-            "gp": GPSym, "gp_typed": GPTyped, "cma": CMA, "cma1pl": CMA1PL, "mocma": MOCMA, "ealoops": EALoops, "es": ES, "islands": Islands, "ga_ops": GAOps, "modelga": ModelGA}
+            "gp": GPSym, "gp_typed": GPTyped, "cma": CMA, "cma1pl": CMA1PL, "cma_active": CMAActive, "mocma": MOCMA, "ealoops": EALoops, "es": ES, "islands": Islands, "ga_ops": GAOps, "modelga": ModelGA}
 
 CKPT_KEYS = ["population", "generation", "halloffame", "logbook", "strategy", "rndstate", "nprndstate"]
 
